@@ -804,28 +804,41 @@ func runLimits(d *fw.Driver, res *fw.Result, rng *rand.Rand) error {
 			if err != nil {
 				return err
 			}
-			out, b, ents := c09.RunImpl(c)
-			mon := ""
-			rejected := false
-			for _, t := range out.Toks {
-				if m, ok := t.(map[string]interface{}); ok {
-					if bd, ok := m["body"].(map[string]interface{}); ok && bd["k"] == "error" {
-						rejected = true
+			for _, via := range []string{"recorder", "chunked", "direct"} {
+				out, b, ents := c09.RunImplVia(c, via)
+				if via == "direct" {
+					out.Status = 0 // no HTTP status on this path: compare tokens and invocations only
+				}
+				mon := ""
+				rejected := false
+				for _, t := range out.Toks {
+					if m, ok := t.(map[string]interface{}); ok {
+						if bd, ok := m["body"].(map[string]interface{}); ok && bd["k"] == "error" {
+							rejected = true
+						}
 					}
 				}
-			}
-			if n > L {
-				if !rejected {
-					mon = fmt.Sprintf("body of %d bytes accepted with limit %d", n, L)
-				} else if len(ents) != 0 {
-					mon = fmt.Sprintf("oversize body (%d > %d) ran a handler", n, L)
+				if n > L {
+					if !rejected {
+						mon = fmt.Sprintf("body of %d bytes accepted with limit %d", n, L)
+					} else if len(ents) != 0 {
+						mon = fmt.Sprintf("oversize body (%d > %d) ran a handler", n, L)
+					}
+				} else if body.Kind == "single" && (rejected || len(ents) != 1) {
+					mon = fmt.Sprintf("body of %d bytes rejected with limit %d: %s", n, L, b)
 				}
-			} else if body.Kind == "single" && (rejected || len(ents) != 1) {
-				mon = fmt.Sprintf("body of %d bytes rejected with limit %d: %s", n, L, b)
+				res.Count(fmt.Sprintf("limit.delta%+d", delta))
+				res.Count("limit.via." + via)
+				res.Eval(true, []interface{}{"limit", L, n, via})
+				mv := model
+				if via == "direct" {
+					if mm, ok := fw.Canon(model).(map[string]interface{}); ok {
+						mm["status"] = 0
+						mv = mm
+					}
+				}
+				res.Compare(fmt.Sprintf("limit L=%d n=%d via=%s", L, n, via), c, mv, out, mon)
 			}
-			res.Count(fmt.Sprintf("limit.delta%+d", delta))
-			res.Eval(true, []interface{}{"limit", L, n})
-			res.Compare(fmt.Sprintf("limit L=%d n=%d", L, n), c, model, out, mon)
 		}
 	}
 	return nil
